@@ -361,6 +361,20 @@ def check_C18(tier, seed, res, builtins, log):
             r = rng.random()
             bs.add(rng.choice(borders) if r < 0.35 else rng.randint(0, 0x10FFFF) if r < 0.85 else rng.randint(0, 0x400))
         cases.append(sorted(b for b in bs if 0 <= b <= 0x10FFFF))
+    # run/hole lists: a start, then alternating run and hole WIDTHS drawn from the widths that matter in this domain (1, 2, the width of the
+    # surrogate gap and its neighbours, plane and byte sizes, powers of two +-1) or at random: a generator that decides contiguity by a
+    # DISTANCE (instead of by "the previous scalar satisfied the predicate") is wrong exactly for holes of a special width
+    widths = [1, 2, 3, 0x7FF, 0x800, 0x801, 0x802, 0xFF, 0x100, 0x101, 0xFFFF, 0x10000, 0x10001, 0x7F, 0x80, 0x81] + [2 ** k + d for k in (4, 10, 12, 15) for d in (-1, 0, 1)]
+    for _ in range(120 if tier == 'quick' else 3000):
+        r = rng.random()
+        pos = rng.choice(borders) if r < 0.3 else rng.randint(0, 0x10FFFF) if r < 0.8 else rng.choice([0, 0xD7FF - rng.choice(widths), 0xE000, 0xE000 + rng.choice(widths)])
+        bs = []
+        for k in range(rng.randint(2, 7)):
+            if not 0 <= pos <= 0x10FFFF:
+                break
+            bs.append(pos)
+            pos += rng.choice(widths) if rng.random() < 0.7 else rng.randint(1, 0x3000)
+        cases.append(sorted(set(bs)))
     ops = ['gen ' + ' '.join(map(str, c)) for c in cases]
     names = ['ALPHABETIC', 'ALPHANUMERIC', 'ASCII', 'ASCII_ALPHABETIC', 'ASCII_ALPHANUMERIC', 'ASCII_CONTROL', 'ASCII_DIGIT', 'ASCII_GRAPHIC',
              'ASCII_HEXDIGIT', 'ASCII_LOWERCASE', 'ASCII_PUNCTUATION', 'ASCII_UPPERCASE', 'ASCII_WHITESPACE', 'CONTROL', 'LOWERCASE', 'NUMERIC',
@@ -402,8 +416,8 @@ def check_C18(tier, seed, res, builtins, log):
             if got != preds[name_map[n]] and len(violations) < 5:
                 violations.append({'definition': None, 'site': 'generate_char_fn_ranges(' + n + ')', 'input': n, 'script': None,
                                    'what': 'real predicate %s: generator output differs from exhaustive enumeration' % n})
-    cov = {'evaluations': len(cases) + len(names), 'distinct_nontrivial': len(distinct), 'exhaustive': True, 'exhaustive_cases': n_exact, 'random_boundary_lists': len(cases) - n_exact,
-           'rule': 'all predicates defined by <= %d boundaries placed at %s, plus boundaries inside the surrogate gap, plus random boundary lists over the whole scalar range (uniform, plane borders, powers of two), plus the 20 real predicates; distinct by output' % (maxb, positions),
+    cov = {'evaluations': len(cases) + len(names), 'distinct_nontrivial': len(distinct), 'exhaustive': True, 'exhaustive_cases': n_exact, 'random_boundary_lists': len(cases) - n_exact, 'run_hole_lists_with_special_widths': 120 if tier == 'quick' else 3000,
+           'rule': 'all predicates defined by <= %d boundaries placed at %s, plus boundaries inside the surrogate gap, plus random boundary lists over the whole scalar range (uniform, plane borders, powers of two), plus run/hole lists whose widths include the surrogate-gap width and its neighbours, plus the 20 real predicates; distinct by output' % (maxb, positions),
            'samples': [{'boundaries': cases[min(9, len(cases) - 1)], 'output': impl[min(9, len(cases) - 1)]}]}
     return {'violations': violations, 'unresolved': unresolved, 'coverage': cov}
 
